@@ -7,3 +7,15 @@ Open Scope N_scope.
 
 Check C12_empty_node_hash : EMPTY_NODE_HASH = sha256 BLANK.
 Print Assumptions C12_empty_node_hash.
+Check C12_root_is_spec : forall (H : bytes -> bytes) l, Forall leaf32 l ->
+  compute_merkle_set_root H l = Ok (spec_root H l).
+Print Assumptions C12_root_is_spec.
+Check C12_spec_root_of_set : forall (H : bytes -> bytes) l l', Forall leaf32 l ->
+  (forall x, In x l <-> In x l') -> spec_root H l = spec_root H l'.
+Print Assumptions C12_spec_root_of_set.
+Check C12_root_of_set : forall (H : bytes -> bytes) l l', Forall leaf32 l -> Forall leaf32 l' ->
+  (forall x, In x l <-> In x l') -> compute_merkle_set_root H l = compute_merkle_set_root H l'.
+Print Assumptions C12_root_of_set.
+Check C12_tree_root_agrees : forall (H : bytes -> bytes) l, Forall leaf32 l ->
+  exists t, from_leafs H l = Ok t /\ get_root H t = compute_merkle_set_root H l.
+Print Assumptions C12_tree_root_agrees.
